@@ -441,8 +441,9 @@ def _normalize_python_version_specifier(marker: MarkerExpression) -> BaseSpecifi
         # skip this case, so in the following code value must be a dotted version string
         return marker.specifier
     splitted = [p.strip() for p in value.split(".")]
-    while len(splitted) > 2 and splitted[-1] == "0":
-        # python_version is always X.Y, so "3.7.0" (as rendered from a merged specifier) means "3.7"
+    while op != "~=" and len(splitted) > 2 and splitted[-1] == "0":
+        # python_version is always X.Y, so "3.7.0" (as rendered from a merged specifier) means "3.7";
+        # not for "~=", where the number of segments is significant
         splitted.pop()
     if len(splitted) > 2 or "*" in splitted:
         return marker.specifier
